@@ -25,6 +25,8 @@ type SimHooks struct {
 	Recover func(value any, stack []byte)
 	// reach counter
 	Probe func(name string)
+	// a connection was registered as client id
+	ClientBorn func(id int64, remoteAddr string)
 	// a stage of writing a snapshot file has completed
 	PersistStage func(stage string, path string)
 	// replaces net.Listen
@@ -82,6 +84,12 @@ func simRecover() {
 func simProbe(name string) {
 	if h := simHooks.Load(); h != nil && h.Probe != nil {
 		h.Probe(name)
+	}
+}
+
+func simClientBorn(id int64, remoteAddr string) {
+	if h := simHooks.Load(); h != nil && h.ClientBorn != nil {
+		h.ClientBorn(id, remoteAddr)
 	}
 }
 
